@@ -36,7 +36,7 @@ func (c15) Describe() engine.Info {
 			"Oracle: reference compositor (low bit-plane = first byte; object priority by X then OAM index); the four shades must be four distinct greys of strictly decreasing brightness, consistent over the frame (the RGB values themselves are not prescribed). Signature = (features present: window, objects clipped at top/bottom/left/right, object palette 1, background-priority objects, signed addressing, flips)." +
 			" Every frame handed to the display whose lines were all drawn from the current scene is judged (the first whole frame after a restart included); a third of the scenes align the background and window coordinate systems; a quarter get stores to LY and to registers of other units while frames are drawn.",
 		Assumptions:    []string{"the RGB values of the four shades are not prescribed; they are learnt per frame and must be consistent, grey and strictly darker with the shade number", "mid-frame register changes are outside the statement (the scene is constant)"},
-		RequiredProbes: []string{"scene_changed", "objects_hidden_by_y0", "frames_compared", "object_clipped_top", "object_clipped_left", "object_clipped_right", "object_clipped_bottom", "window_visible", "bg_priority_object", "obp1_object", "ly_store_while_drawing", "first_whole_frame_after_switch_on_judged"},
+		RequiredProbes: []string{"scene_changed", "objects_hidden_by_y0", "frames_compared", "object_clipped_top", "object_clipped_left", "object_clipped_right", "object_clipped_bottom", "window_visible", "bg_priority_object", "obp1_object", "ly_store_while_drawing", "same_value_store_while_drawing", "first_whole_frame_after_switch_on_judged"},
 		RealComponents: realComponents, StubComponents: stubComponents,
 	}
 }
@@ -68,6 +68,16 @@ func (c15) Generate(r *engine.Rand, index int, tier string) *engine.Scenario {
 		for i, n := 0, r.Range(2, 12); i < n; i++ {
 			a := engine.Pick(r, []uint16{0xff44, 0xff44, 0xff44, 0xff0f, 0xff04, 0xff26})
 			sc.Events = append(sc.Events, engine.Event{At: uint64(r.Intn(int(sc.Cycles + 3*17556))), K: "bus_w", A: a, V: r.Byte(), S: "noise"})
+		}
+		sortEvents(sc.Events)
+	}
+	if index%4 == 3 {
+		// the guest stores into the video registers the values they already hold, at any point of the
+		// frame (games rewrite LCDC, the scroll and window registers and the palettes every frame): the
+		// scene is what it was
+		for i, n := 0, r.Range(2, 16); i < n; i++ {
+			a := engine.Pick(r, []uint16{0xff40, 0xff40, 0xff4a, 0xff4a, 0xff4b, 0xff42, 0xff43, 0xff47, 0xff48, 0xff49, 0xff45})
+			sc.Events = append(sc.Events, engine.Event{At: uint64(r.Intn(int(sc.Cycles + 3*17556))), K: "bus_w", A: a, S: "same"})
 		}
 		sortEvents(sc.Events)
 	}
@@ -318,6 +328,14 @@ func (c15) Execute(sc *engine.Scenario) *engine.Result {
 		for nei < len(sc.Events) && sc.Events[nei].At <= m.N {
 			ev := sc.Events[nei]
 			nei++
+			if ev.S == "same" && ev.A >= 0xff40 && ev.A <= 0xff4b && ev.A != 0xff44 && ev.A != 0xff46 && ev.A != 0xff41 {
+				m.Write(ev.A, m.Read(ev.A))
+				res.Fault("same_value_store")
+				if m.Read(0xff40)&0x80 != 0 && m.Read(0xff44) < 144 {
+					res.Probe("same_value_store_while_drawing")
+				}
+				continue
+			}
 			if ev.A == 0xff40 || (ev.A >= 0xff42 && ev.A <= 0xff4b && ev.A != 0xff44) || (ev.A >= 0x8000 && ev.A < 0xa000) || (ev.A >= 0xfe00 && ev.A < 0xff00) {
 				continue // never anything that is part of the scene (a minimised file may hold anything)
 			}
